@@ -42,6 +42,11 @@ type Conn struct {
 	// the full length.  It is called with the lock held and must not call Conn
 	// methods.
 	AfterWrite func(n int, p []byte) error
+	// StallWritesFrom, when >= 0, makes write operation number n >= that value
+	// block like a connection whose peer has stopped reading (full send
+	// window): until the write deadline passes (timeout error) or the
+	// connection is closed.  Nothing of such a write reaches the peer.
+	StallWritesFrom int
 	// HoldAfterWrite, when set, is called (without the lock) once the bytes of
 	// Write number n are visible to the peer and before Write returns; it may
 	// block (the writer is held inside Write while the peer already reacts to
@@ -62,7 +67,7 @@ type Conn struct {
 
 // NewConn returns an open connection with no input.
 func NewConn() *Conn {
-	c := &Conn{}
+	c := &Conn{StallWritesFrom: -1}
 	c.cond = sync.NewCond(&c.mu)
 	return c
 }
@@ -282,6 +287,17 @@ func (c *Conn) Write(p []byte) (int, error) {
 func (c *Conn) write(n int, p []byte) (int, error) {
 	c.mu.Lock()
 	defer c.mu.Unlock()
+	if c.StallWritesFrom >= 0 && n >= c.StallWritesFrom {
+		for {
+			if c.closed {
+				return 0, io.ErrClosedPipe
+			}
+			if !c.wdl.IsZero() && !time.Now().Before(c.wdl) {
+				return 0, timeoutErr{}
+			}
+			c.cond.Wait()
+		}
+	}
 	if c.closed {
 		return 0, io.ErrClosedPipe
 	}
@@ -356,6 +372,17 @@ func (c *Conn) SetWriteDeadline(t time.Time) error {
 	defer c.mu.Unlock()
 	c.wdl = t
 	c.nWdl++
+	if c.wtimer != nil {
+		c.wtimer.Stop()
+		c.wtimer = nil
+	}
+	if !t.IsZero() {
+		d := time.Until(t)
+		if d < 0 {
+			d = 0
+		}
+		c.wtimer = time.AfterFunc(d, func() { c.cond.Broadcast() })
+	}
 	c.cond.Broadcast()
 	return nil
 }
